@@ -390,7 +390,7 @@ class LabReplay:
                     break
         # (b) verdict, (c) refusal is a ValueError
         cls = ev.get("cls")
-        overlapping = ev.get("overlap") in ("overlap", "identical", "self")
+        overlapping = ev.get("overlap") in ("overlap", "identical", "self", "duplicate")
         if self.near_not_asserted(ev):
             return
         if ev["res"] != "ok":
@@ -553,7 +553,7 @@ class LabReplay:
                 if out.ok:
                     self.report("C07", "mismatched_shapes_accepted", key, f"{out.call}: shapes do not pair but the call was accepted", ev, ctx["pre_key"])
                 return
-            if ev["overlap"] in ("overlap", "identical", "self"):
+            if ev["overlap"] in ("overlap", "identical", "self", "duplicate"):
                 return
             if not out.ok:
                 if not isinstance(out.exc, ValueError):
